@@ -226,6 +226,17 @@ pub fn generate(ctx: &mut Ctx) {
     for v in named {
         ctx.case("named", &format!("v {}", vx::show(&v)));
     }
+    // timestamps whose LOCAL time is ambiguous or special in their zone (both passes of the repeated hour at the end of
+    // daylight saving time, the instants around the skipped hour, offsets with seconds), with sub-second parts:
+    // anything an encoder does through the local wall clock fails exactly there
+    for dt in gen::dst_edge_datetimes().into_iter().chain(gen::lmt_datetimes()) {
+        let v = Value::DateTime(dt);
+        ctx.case("dst", &format!("v {}", vx::show(&v)));
+        let mut dd = Dict::new();
+        dd.insert("ts".into(), v.clone());
+        dd.insert("dis".into(), v.clone());
+        ctx.case("dst", &format!("v {}", vx::show(&Value::List(vec![v.clone(), Value::Dict(dd)]))));
+    }
     // known finding M3: a timestamp whose LOCAL time is outside chrono's representable range
     ctx.case("m3", "m3 8210266873199 Australia/Sydney");
     ctx.case("m3", "m3 -8334601228800 America/New_York");
